@@ -157,6 +157,13 @@ int main(int argc, char **argv) {
     return 0;
 }
 
+/* A corrupted container can make an observation loop run away (e.g. a size field that underflowed): cap the
+ * output of one trace; beyond the cap the child aborts and the parent reports CRASH harness:output-limit. */
+#define VF_MAXOUT (4u << 20)
+static size_t vf_out_bytes = 0;
+#define printf(...) do { int vf_n_ = fprintf(stdout, __VA_ARGS__); if (vf_n_ > 0) vf_out_bytes += (size_t)vf_n_; \
+                         if (vf_out_bytes > VF_MAXOUT) vf_die("output-limit: runaway observation"); } while (0)
+
 /* redirect the allocator names used inside the library sources */
 #define malloc vf_libc_malloc
 #define calloc vf_libc_calloc
